@@ -11,7 +11,7 @@ import sqlite3
 from vcheck import Machinery, pmap
 
 _TOK = re.compile(r"\s+|[A-Za-z_][A-Za-z_0-9.]*|\?|%s|\(|\)|,|!=|<=|>=|=|<|>|[01]\b")
-_WORDS = {'SELECT', 'id', 'a', 'b', '_b', 'FROM', 't', 'tu', 'WHERE', 'AND', 'OR', 'IN', 'NOT', 'IS', 'NULL', 'LIKE', 'ORDER',
+_WORDS = {'SELECT', 'id', 'a', 'b', '_a', '_b', 'FROM', 't', 'tu', 'WHERE', 'AND', 'OR', 'IN', 'NOT', 'IS', 'NULL', 'LIKE', 'ORDER',
           'BY', 'DESC', 'FALSE'}
 
 
@@ -72,7 +72,7 @@ def _db(table):
     if key not in _DB:
         conn = sqlite3.connect(':memory:')
         conn.execute('CREATE TABLE t (id INTEGER PRIMARY KEY, a, b)')
-        conn.execute('CREATE TABLE tu (id INTEGER PRIMARY KEY, a, _b)')     # same rows, column name starts with '_'
+        conn.execute('CREATE TABLE tu (id INTEGER PRIMARY KEY, _a, _b)')     # same rows, column names start with '_'
         for r in table:
             conn.execute('INSERT INTO t VALUES (?, ?, ?)', (r['id'], _val(r['a']), _val(r['b'])))
             conn.execute('INSERT INTO tu VALUES (?, ?, ?)', (r['id'], _val(r['a']), _val(r['b'])))
@@ -83,12 +83,12 @@ def _db(table):
 
 
 def _ren(c, under):
-    """the same condition over table tu, where column b is called _b"""
+    """the same condition over table tu, whose columns are called _a and _b (keyword filters keep their order)"""
     if not under:
         return c
     c = dict(c)
-    if c.get('f') == 'b':
-        c['f'] = '_b'
+    if c.get('f') in ('a', 'b'):
+        c['f'] = '_' + c['f']
     if 'cs' in c:
         c['cs'] = [_ren(x, under) for x in c['cs']]
     return c
@@ -155,7 +155,7 @@ def run_case(job):
             args.append(SqlMethod._or(*subs))
         else:
             args.append(_simple(c, variant))
-    m = SqlMethod('SELECT id, a, _b FROM tu' if under else 'SELECT id, a, b FROM t', order_by='id')
+    m = SqlMethod('SELECT id, _a, _b FROM tu' if under else 'SELECT id, a, b FROM t', order_by='id')
     kw = dict(kwargs)
     if case['desc']:
         kw['_order_by'] = 'id DESC'
